@@ -100,43 +100,57 @@ def sampler_orders(ck, recs, data, max_points=3):
     saved = (unc.SMCSampler, pg.ConditionalSMCSampler)
     unc.SMCSampler = StubSMC
     pg.ConditionalSMCSampler = StubSMC
-    try:
-        for rec in recs:
-            key = absstate.canon(rec["st"])
-            ids = sorted(absstate.data_ids(key))
-            if not ids or len(ids) > max_points:
-                continue
-            orders = {tuple(o) for o in rec["orders"]}
-            for which in ("burn-in", "particle Gibbs"):
-                rng = EnumRNG()
-                kern = types.SimpleNamespace(rng=rng)
-                sampler = unc.UnconditionalSMCSampler(kern, num_particles=2) if which == "burn-in" else pg.ParticleGibbsTreeSampler(kern, rng, num_particles=2)
+    todo = [rec for rec in recs if absstate.data_ids(absstate.canon(rec["st"])) and len(absstate.data_ids(absstate.canon(rec["st"]))) <= max_points]
 
-                def go():
-                    t = absstate.build(key, data)
-                    try:
-                        sampler.sample_tree(t)
-                    except _Captured as c:
-                        return c.order
-                    except Exception:  # noqa - a changed constructor protocol: reported as a note below
-                        return None
+    def task(rec):
+        key = absstate.canon(rec["st"])
+        orders = {tuple(o) for o in rec["orders"]}
+        out = []
+        nev = 0
+        for which in ("burn-in", "particle Gibbs"):
+            rng = EnumRNG()
+            kern = types.SimpleNamespace(rng=rng)
+            sampler = unc.UnconditionalSMCSampler(kern, num_particles=2) if which == "burn-in" else pg.ParticleGibbsTreeSampler(kern, rng, num_particles=2)
+
+            def go():
+                t = absstate.build(key, data)
+                try:
+                    sampler.sample_tree(t)
+                except _Captured as c:
+                    return c.order
+                except Exception:  # noqa - a changed constructor protocol: reported as a note below
                     return None
+                return None
 
-                law = {}
-                for res, p, _ in enumerate_paths(go, rng):
-                    law[res] = law.get(res, 0.0) + p
-                ck.evaluations += len(law)
-                rep = {"state": absstate.to_json(key), "sampler": which, "expected_orders": sorted(orders)}
-                if None in law:
-                    ck.note("the %s sampler no longer builds its SMC pass through the captured class: order law not checked" % which)
-                    continue
-                if set(law) != orders:
-                    ck.violation("C09|sampler_order|support|%s" % which.replace(" ", "_"), "the %s sampler hands its SMC pass orders outside / not covering the compatible orders of %s: extra %s missing %s" % (
-                        which, absstate.key_str(key), sorted(set(law) - orders)[:3], sorted(orders - set(law))[:3]), rep)
-                elif max(abs(p - 1.0 / len(orders)) for p in law.values()) > 1e-12:
-                    ck.violation("C09|sampler_order|nonuniform|%s" % which.replace(" ", "_"), "the order the %s sampler hands to its SMC pass is not uniform on the compatible orders of %s" % (which, absstate.key_str(key)), rep)
-            if len(orders) > 1:
-                ck.nontrivial("sampler_order:" + absstate.key_str(key))
+            law = {}
+            for res, p, _ in enumerate_paths(go, rng):
+                law[res] = law.get(res, 0.0) + p
+            nev += len(law)
+            rep = {"state": absstate.to_json(key), "sampler": which, "expected_orders": sorted(orders)}
+            if None in law:
+                out.append(("note", "the %s sampler no longer builds its SMC pass through the captured class: order law not checked" % which, None))
+                continue
+            if set(law) != orders:
+                out.append(("C09|sampler_order|support|%s" % which.replace(" ", "_"), "the %s sampler hands its SMC pass orders outside / not covering the compatible orders of %s: extra %s missing %s" % (
+                    which, absstate.key_str(key), sorted(set(law) - orders)[:3], sorted(orders - set(law))[:3]), rep))
+            elif max(abs(p - 1.0 / len(orders)) for p in law.values()) > 1e-12:
+                out.append(("C09|sampler_order|nonuniform|%s" % which.replace(" ", "_"), "the order the %s sampler hands to its SMC pass is not uniform on the compatible orders of %s" % (which, absstate.key_str(key)), rep))
+        return out, nev, len(orders) > 1, absstate.key_str(key)
+
+    try:
+        from .. import kernels
+        noted = set()
+        for out, nev, nontriv, ks in kernels.parallel_map(task, todo, chunksize=4):
+            ck.evaluations += nev
+            for sig, msg, rep in out:
+                if sig == "note":
+                    if msg not in noted:
+                        noted.add(msg)
+                        ck.note(msg)
+                else:
+                    ck.violation(sig, msg, rep)
+            if nontriv:
+                ck.nontrivial("sampler_order:" + ks)
     finally:
         unc.SMCSampler, pg.ConditionalSMCSampler = saved
 
